@@ -221,6 +221,11 @@ macro_rules! ser_impl {
     };
 }
 
+impl Buf {
+    /// the byte-level operations recorded so far
+    pub fn ops(&self) -> &[Op] { &self.ops }
+}
+
 impl SerializationBuffer for Buf {
     ser_impl!(ops, |s: &Buf| s.plugin.clone());
 }
